@@ -705,6 +705,22 @@ class PydModel(Model):
         new.snapshot = snap
         return new
 
+    def dump_fn(self, cls):
+        return z3.Function("DUMP_" + cls, IntS, U)
+
+    def call_ref_method(self, st, recv, name, node):
+        eng = self.eng
+        if name == "model_dump_json" and recv.cls in eng.reg.classes:
+            eng.eval_args(st, node)
+            snap = eng.alloc(st, recv.cls)
+            self.copy_fields(st, recv.cls, recv, snap)
+            t = self.dump_fn(recv.cls)(snap.t)
+            # A-PYD: a dumped model parses back to itself and is accepted
+            st.assume(self.parse_fn(recv.cls)(t) == snap.t)
+            st.assume(z3.Not(z3.Function("REJECTS_" + recv.cls, U, BoolS)(t)))
+            return VU(t)
+        return NotImplemented
+
     def copy_fields(self, st, cls, src, dst):
         eng = self.eng
         c = cls
@@ -1205,3 +1221,79 @@ class PathModel2(Model):
 
 
 ALL = ALL + [PathModel2]
+
+
+# ---------------------------------------------------------------------------
+SSUM = z3.Function("SSUM", z3.ArraySort(IntS, IntS), z3.ArraySort(IntS, IntS),
+                   IntS, IntS)
+SSW = z3.Function("SSW", z3.ArraySort(IntS, IntS), z3.ArraySort(IntS, IntS),
+                  z3.ArraySort(IntS, IntS), z3.ArraySort(IntS, IntS), IntS,
+                  IntS)
+
+
+class SumModel(Model):
+    """Finite sums of an integer field over a list of records:
+    SSUM(f, a, k) = sum_{i<k} f[a[i]]   (list theory; Lean: lemmas/ListFacts)
+      SSUM(f, a, 0) = 0
+      SSUM(f, a, k+1) = SSUM(f, a, k) + f[a[k]]      (instantiated at appends
+                                                       and loop steps)
+      extensionality in witness form."""
+
+    def axioms(self):
+        f = z3.Const("f!ss", z3.ArraySort(IntS, IntS))
+        g = z3.Const("g!ss", z3.ArraySort(IntS, IntS))
+        a = z3.Const("a!ss", z3.ArraySort(IntS, IntS))
+        b = z3.Const("b!ss", z3.ArraySort(IntS, IntS))
+        k = z3.Const("k!ss", IntS)
+        w = SSW(f, g, a, b, k)
+        return [
+            z3.ForAll([f, a], SSUM(f, a, 0) == 0, patterns=[SSUM(f, a, 0)]),
+            z3.ForAll([f, g, a, b, k], z3.Or(
+                SSUM(f, a, k) == SSUM(g, b, k),
+                z3.And(0 <= w, w < k, f[a[w]] != g[b[w]])),
+                patterns=[z3.MultiPattern(SSUM(f, a, k), SSUM(g, b, k))]),
+        ]
+
+    def int_fields(self, cls):
+        reg = self.eng.reg
+        out = []
+        c = cls
+        while c is not None:
+            for f_, shp in reg.classes.get(c, {}).items():
+                if shp == "int":
+                    out.append(f"{c}.{f_}")
+            c = reg.bases.get(c)
+        return out
+
+    def step_facts(self, st, lst, k):
+        """SSUM(f, arr, k+1) = SSUM(f, arr, k) + f[arr[k]] for every integer
+        field f of the element class (current heap)."""
+        eng = self.eng
+        if not lst.eshape.startswith("ref:"):
+            return
+        cls = lst.eshape[4:]
+        for key in self.int_fields(cls):
+            f = eng.heap_arr(st, key, IntS)
+            st.assume(SSUM(f, lst.arr, k + 1) ==
+                      SSUM(f, lst.arr, k) + f[lst.arr[k]])
+
+    def call_global(self, st, name, node):
+        eng = self.eng
+        if name == "sum" and len(node.args) == 1 and isinstance(
+                node.args[0], ast.GeneratorExp):
+            ge = node.args[0]
+            if len(ge.generators) == 1 and not ge.generators[0].ifs and \
+                    isinstance(ge.generators[0].target, ast.Name) and \
+                    isinstance(ge.elt, ast.Attribute) and \
+                    isinstance(ge.elt.value, ast.Name) and \
+                    ge.elt.value.id == ge.generators[0].target.id:
+                lst = eng.eval(st, ge.generators[0].iter)
+                if isinstance(lst, VList) and lst.eshape.startswith("ref:"):
+                    key, shp = eng.field_key(lst.eshape[4:], ge.elt.attr)
+                    if shp == "int":
+                        f = eng.heap_arr(st, key, IntS)
+                        return VInt(SSUM(f, lst.arr, lst.n))
+        return NotImplemented
+
+
+ALL = ALL + [SumModel]
